@@ -48,7 +48,7 @@ def confirm(run, v):
         case = {'entry': 'process', 'device': 'T1', 'input': v['input'], 'n': v['n'], 'chunks': v.get('chunks') or [], 'tail': 1}
     # reference: the same message with the payload's newlines replaced (same length), given to run whole
     detail = {}
-    ok_all = True
+    ok_all = False      # reproduced in the dev or the release profile (both recorded)
     for rel in (False, True):
         obs = run.native([case], release=rel)[0]
         if v['rule'] in ('PANIC', 'HANG'):
@@ -65,5 +65,5 @@ def confirm(run, v):
                 pay = [a[1] for e in obs['events'] if e[0] == 'call' for a in e[2]]
                 ok = not all(bytes.fromhex(p) in msg for p in pay)
         detail['release' if rel else 'dev'] = {'observation': obs, 'reproduced': ok}
-        ok_all = ok_all and ok
+        ok_all = ok_all or ok
     return ok_all, detail
